@@ -304,7 +304,8 @@ func (d *TTMLInDuration) UnmarshalText(i []byte) (err error) {
 	}
 
 	// Extract clock time frames
-	if indexes := ttmlRegexpClockTimeFrames.FindStringIndex(text); indexes != nil {
+	// (only "hh:mm:ss:ff" carries frames: the last field of "hh:mm:ss" is seconds)
+	if indexes := ttmlRegexpClockTimeFrames.FindStringIndex(text); indexes != nil && strings.Count(text, ":") == 3 {
 		// Parse frames
 		var s = text[indexes[0]+1 : indexes[1]]
 		if d.frames, err = strconv.Atoi(s); err != nil {
